@@ -2,10 +2,13 @@
 use super::fields::{Field, RecInfo};
 use serde_json::{json, Value};
 
-pub const VCS: [&str; 23] = [
+pub const VCS: [&str; 26] = [
     "zero", "one", "max", "max-1", "hi7f", "hi80", "inc", "dec", "dbl", "filelen", "tablelen", "self", "parent",
     "eqprev", "eqnext", "prev+1", "next-1", "prev-1", "next+1", "uwrap-prev", "uwrap-next", "swrap-prev", "swrap-next",
+    "half", "der-1", "der-half",
 ];
+/// FaultModel!DerClasses: the new value is a function of the value the other fields of the font imply for the field
+pub const DER_CLASSES: [&str; 2] = ["der-1", "der-half"];
 /// FaultModel!PrevClasses / NextClasses: the new value is a function of the previous / next element of the array
 pub const PREV_CLASSES: [&str; 5] = ["eqprev", "prev+1", "prev-1", "uwrap-prev", "swrap-prev"];
 pub const NEXT_CLASSES: [&str; 5] = ["eqnext", "next-1", "next+1", "uwrap-next", "swrap-next"];
@@ -24,9 +27,16 @@ pub fn is_next_class(vc: &str) -> bool {
 pub fn is_rel_class(vc: &str) -> bool {
     is_prev_class(vc) || is_next_class(vc)
 }
+pub fn is_der_class(vc: &str) -> bool {
+    DER_CLASSES.contains(&vc)
+}
 /// FaultModel!ClassApplies
 pub fn class_applies(vc: &str, role: &str) -> bool {
-    (!is_ref_class(vc) || role == "offset" || role == "index") && (!is_rel_class(vc) || role != "version")
+    (!is_ref_class(vc) || role == "offset" || role == "index") && (!is_rel_class(vc) || role != "version") && (!is_der_class(vc) || role == "count" || role == "length" || role == "offset")
+}
+/// FaultModel!HasDer
+pub fn has_der(vc: &str, dv: i64) -> bool {
+    !is_der_class(vc) || dv >= 1
 }
 /// FaultModel!HasRel on the positions the walk recorded (the bytes are read when the fault is applied)
 pub fn has_sib(vc: &str, po: i64, no: i64) -> bool {
@@ -46,9 +56,10 @@ pub fn has_ref(vc: &str, sv: i64, pv: i64) -> bool {
 
 /// The value a class names for a field of `w` bytes that held `old` (FaultModel!NewValue); `sv` /
 /// `pv` = the references of the field (>= 0 when the class is "self" / "parent"); `pb` / `nb` = the
-/// previous / next element of the array (there when the class is a relational one on that side).
+/// previous / next element of the array (there when the class is a relational one on that side);
+/// `dv` = the value the other fields imply for this one (>= 1 when the class is a derived one).
 #[allow(clippy::too_many_arguments)]
-pub fn new_value(vc: &str, old: u64, w: u8, flen: u64, tlen: u64, sv: i64, pv: i64, pb: Option<u64>, nb: Option<u64>) -> u64 {
+pub fn new_value(vc: &str, old: u64, w: u8, flen: u64, tlen: u64, sv: i64, pv: i64, dv: i64, pb: Option<u64>, nb: Option<u64>) -> u64 {
     let bits = 8 * w as u32;
     let mask: u64 = if bits >= 64 { u64::MAX } else { (1u64 << bits) - 1 };
     let hi80 = (mask >> 1) + 1;
@@ -63,6 +74,9 @@ pub fn new_value(vc: &str, old: u64, w: u8, flen: u64, tlen: u64, sv: i64, pv: i
         "inc" => old.wrapping_add(1),
         "dec" => old.wrapping_sub(1),
         "dbl" => old.wrapping_mul(2),
+        "half" => old / 2,
+        "der-1" => (dv.max(1) - 1) as u64,
+        "der-half" => (dv.max(0) / 2) as u64,
         "filelen" => flen,
         "tablelen" => tlen,
         "self" => sv.max(0) as u64,
@@ -130,9 +144,9 @@ pub fn apply(buf: &mut Vec<u8>, f: &CF, fields: &[Field], recs: &[RecInfo]) -> A
             let target = if fd.level == "dir" && ["sfnt", "ttcf", "wOFF", "wOF2"].contains(&fd.tbl.as_str()) { "*".to_string() } else { fd.tbl.clone() };
             let (pb, nb) = (sibling(buf, fd.prevo, fd.w), sibling(buf, fd.nexto, fd.w));
             let has_rel = (!is_prev_class(vc) || pb.is_some()) && (!is_next_class(vc) || nb.is_some());
-            match rd(buf, fd.off, fd.w).filter(|_| has_ref(vc, fd.selfv, fd.parentv) && has_rel) {
+            match rd(buf, fd.off, fd.w).filter(|_| has_ref(vc, fd.selfv, fd.parentv) && has_der(vc, fd.dv) && has_rel) {
                 Some(old) => {
-                    let new = new_value(vc, old, fd.w, flen, fd.tlen as u64, fd.selfv, fd.parentv, pb, nb);
+                    let new = new_value(vc, old, fd.w, flen, fd.tlen as u64, fd.selfv, fd.parentv, fd.dv, pb, nb);
                     wr(buf, fd.off, fd.w, new);
                     Applied {
                         desc: json!(["Overwrite", fd.role, vc, fd.level, fd.tbl, fd.name, fd.off, fd.w, hex64(old, fd.w), hex64(new, fd.w)]),
@@ -216,13 +230,13 @@ pub fn apply_model_fault(buf: &mut Vec<u8>, f: &Value) {
     match f["k"].as_str().unwrap() {
         "Overwrite" => {
             let (off, w) = (u("off"), u("w") as u8);
-            let (sv, pv) = (f["sv"].as_i64().unwrap_or(-1), f["pv"].as_i64().unwrap_or(-1));
+            let (sv, pv, dv) = (f["sv"].as_i64().unwrap_or(-1), f["pv"].as_i64().unwrap_or(-1), f["dv"].as_i64().unwrap_or(-1));
             let vc = f["vc"].as_str().unwrap();
             let (pb, nb) = (sibling(buf, f["po"].as_i64().unwrap_or(-1), w), sibling(buf, f["no"].as_i64().unwrap_or(-1), w));
             let has_rel = (!is_prev_class(vc) || pb.is_some()) && (!is_next_class(vc) || nb.is_some());
-            if let Some(old) = rd(buf, off, w).filter(|_| has_ref(vc, sv, pv) && has_rel) {
+            if let Some(old) = rd(buf, off, w).filter(|_| has_ref(vc, sv, pv) && has_der(vc, dv) && has_rel) {
                 let flen = buf.len() as u64;
-                wr(buf, off, w, new_value(vc, old, w, flen, u("tlen") as u64, sv, pv, pb, nb));
+                wr(buf, off, w, new_value(vc, old, w, flen, u("tlen") as u64, sv, pv, dv, pb, nb));
             }
         }
         "Truncate" => buf.truncate(u("at")),
